@@ -356,7 +356,7 @@ Qed.
 
 (* ---------- Election.ProcessRoot ---------- *)
 Lemma process_root_sim st es Dr k (S : root -> Prop) n f :
-  Core st es T Dr T -> cache_inv k st T T -> (forall m, In m T -> ~ is_temp k (nd_id m)) ->
+  Core st es T Dr T -> cache_inv k st T T -> (forall m, In m T -> ~ k (nd_id m)) ->
   EI (l_el st) S -> choose_atropos (l_el st) = Ok None -> In n (rts f) ->
   (f0 + 2 <= f -> forall m, In m (rts (f - 1)) -> fcn n m = true -> S (slot m (f - 1))) ->
   exists res c' el', process_root cap st (slot n f) = (res, set_el (set_fcc st c') el') /\
